@@ -183,6 +183,14 @@ class HeapDriver:
                 return self._o(how, "accepted")
             except Exception:  # noqa: BLE001  - rejected; the property does not say with which exception type
                 return self._o(how, "AttributeError")
+        if name == "EditDict":
+            d = o.as_dict()
+            for k in list(d):
+                d[k] = "overwritten"
+            d["zzz_added"] = 1
+            if d:
+                del d[next(iter(d))]
+            return self._o("dict_edited", args[0])
         if name == "MutateInput" and cls == "deep":
             k = len(ext[0][0]) + 1
             for row in ext[0]:
@@ -276,7 +284,7 @@ def gen_trace(rnd, nobjs=10, nops=30):
         if len(heap) < nobjs:
             ch += [("Construct",)] * 3
         if heap:
-            ch += [("Poke",), ("MutateInput",), ("Updated",), ("Updated",), ("Copy",), ("Compare",), ("Compare",)]
+            ch += [("Poke",), ("MutateInput",), ("Updated",), ("Updated",), ("Copy",), ("Compare",), ("Compare",), ("EditDict",)]
         name = rnd.choice(ch)[0]
         if name == "Construct":
             c = rnd.choice(ALL)
@@ -288,6 +296,8 @@ def gen_trace(rnd, nobjs=10, nops=30):
             c, v, ext = heap[i - 1]
             if name == "Poke":
                 args = [i, rnd.choice(["set_existing", "set_new", "del_existing", "del_new", "set_dunder", "del_dunder"])]
+            elif name == "EditDict":
+                args = [i]
             elif name == "MutateInput":
                 if c not in ("cont", "deep") or ext == 0:
                     continue
@@ -318,7 +328,7 @@ TRACE_KW = dict(
     variables=["heap", "nops", "obs"],
     constants=dict(MaxObjs=10, MaxOps=100000, Bug='"none"',
                    Classes='{"flat", "flat2", "cont", "deep", "nest", "gen", "genraw", "miss", "flag", "rng", "anyl"}'),
-    config_vars=[], actions=dict(Construct=2, Poke=2, MutateInput=1, Updated=2, Copy=2, Compare=2),
+    config_vars=[], actions=dict(Construct=2, Poke=2, MutateInput=1, EditDict=1, Updated=2, Copy=2, Compare=2),
     invariants=["PokeRejected", "EqExact", "EqTruth"])
 
 
@@ -331,7 +341,7 @@ def run(rep, work, tier, seed):
         conf = dict(MaxObjs=3, MaxOps=4, Classes=ALL, Bug="none")
     rep.extra["constants"] = dict(model=mc, conformance=conf)
     leg_m(rep, work, SPEC, f"mc_{tier}", cfg_text(mc, spec="Spec", invariants=INVS, properties=PROPS),
-          expect_actions=["Construct", "Poke", "MutateInput", "Updated", "Copy", "Compare"], timeout=3000)
+          expect_actions=["Construct", "Poke", "MutateInput", "EditDict", "Updated", "Copy", "Compare"], timeout=3000)
     if tier == "thorough":
         small = dict(MaxObjs=3, MaxOps=3, Classes=["flat", "cont"])
         for bug, inv in (("setattr_allowed", ["Frozen", "PokeRejected"]), ("shares_input", ["Frozen"]),
